@@ -26,6 +26,7 @@ func SignBlock(blockHash common.Hash) ([]byte, error) {
 
 	// save to cache
 	sigCache.Hash = blockHash
+	verifSignGate(blockHash)
 	sigCache.Sig = sig
 
 	return sigCache.Sig, nil
